@@ -46,6 +46,26 @@ var c12Keys = []c12KeyDef{
 	{c12skey{2}, 4, 2, "skey{2}"},
 }
 
+// more keys for the deep-chain stream: for every value v in 3..10 one key of
+// each of eight dynamic types (so neighbours in a chain differ by type only or
+// by value only).  Indexes 0..7 above are stable (corpus files name them).
+type c12i32 int32
+
+func init() {
+	for v := 3; v <= 10; v++ {
+		c12Keys = append(c12Keys,
+			c12KeyDef{int(v), 0, uint64(v), fmt.Sprintf("int(%d)", v)},
+			c12KeyDef{int64(v), 1, uint64(v), fmt.Sprintf("int64(%d)", v)},
+			c12KeyDef{fmt.Sprint(v), 2, uint64(1000 + v), fmt.Sprintf("%q", fmt.Sprint(v))},
+			c12KeyDef{&c12pkey{v}, 3, uint64(v), fmt.Sprintf("ptr%d", v)},
+			c12KeyDef{c12skey{v}, 4, uint64(v), fmt.Sprintf("skey{%d}", v)},
+			c12KeyDef{uint8(v), 5, uint64(v), fmt.Sprintf("uint8(%d)", v)},
+			c12KeyDef{float64(v), 6, uint64(v), fmt.Sprintf("float64(%d)", v)},
+			c12KeyDef{c12i32(v), 7, uint64(v), fmt.Sprintf("i32(%d)", v)},
+		)
+	}
+}
+
 func c12KeyCoq(i int) string {
 	k := c12Keys[i]
 	return fmt.Sprintf("(%d,%d%%N)", k.tag, k.pay)
@@ -1074,6 +1094,164 @@ func c12Hostile() []C12Spec {
 	return out
 }
 
+// ---------------------------------------------------------------- deep chains
+// One owner holding 20-40 distinct keys (several dynamic types), then sets,
+// set-nils and re-sets of keys at chosen depths below the newest link: the
+// newest, the 16th/17th/18th/19th link, the middle, the oldest.  Every key is
+// read back and the chain length (= number of live keys) is read after every
+// step.  For cell owners a by-value copy is taken of the loaded cell and the
+// deep sets go through the copy and through the original alternately.
+
+type c12DeepOwner struct {
+	name   string
+	prefix []C12Op
+	o      *C12Owner
+	cell   bool
+}
+
+func c12DeepOwners() []c12DeepOwner {
+	return []c12DeepOwner{
+		{"table", []C12Op{{Op: "additems", N: 2}}, own("table"), false},
+		{"col0", []C12Op{{Op: "additems", N: 2}}, own("col", 0), false},
+		{"col2", []C12Op{{Op: "additems", N: 2}}, own("col", 2), false},
+		{"handle", []C12Op{{Op: "additems", N: 1}, {Op: "takecol", N: 1}, {Op: "additems", N: 25}}, own("handle", 0), false},
+		{"row", []C12Op{{Op: "additems", N: 2}}, own("row", 0), false},
+		{"detached-row", []C12Op{{Op: "newrow"}}, own("row", 0), false},
+		{"cell", []C12Op{{Op: "additems", N: 2}}, own("cell", 0, 1), true},
+		{"det", []C12Op{{Op: "newcell"}}, own("det", 0), true},
+	}
+}
+
+// keys for a deep chain: n keys starting at a rotating offset of the extended
+// table, so all types of one value sit next to each other
+func c12DeepKeys(n, rot int) []int {
+	total := len(c12Keys)
+	out := make([]int, 0, n)
+	for i := 0; i < n; i++ {
+		out = append(out, (rot*7+i)%total)
+	}
+	return out
+}
+
+// c12Deep builds one history: load n keys on the owner, then for each entry of
+// plan = (depth below the newest link, kind) one op; kind 0 = set nil,
+// 1 = re-set to a fresh value, 2 = set nil then set again.  A negative depth
+// counts from the oldest link (-1 = oldest).
+func c12Deep(d c12DeepOwner, n, rot int, plan [][2]int, withCopy bool) C12Spec {
+	ops := append([]C12Op{}, d.prefix...)
+	keys := c12DeepKeys(n, rot)
+	var order []int // live keys, newest first (what the chain should be)
+	val := 1
+	set := func(o *C12Owner, k, v int) {
+		ops = append(ops, C12Op{Op: "set", O: o, Key: k, V: v})
+	}
+	for _, k := range keys {
+		set(d.o, k, val%80+1)
+		val++
+		order = append([]int{k}, order...)
+	}
+	target := d.o
+	ndets := 0
+	for _, op := range d.prefix {
+		if op.Op == "newcell" {
+			ndets++
+		}
+	}
+	var cp *C12Owner
+	if withCopy && d.cell {
+		ops = append(ops, C12Op{Op: "copy", O: d.o})
+		cp = own("det", ndets)
+	}
+	for i, pl := range plan {
+		if len(order) == 0 {
+			break
+		}
+		depth := pl[0]
+		if depth < 0 {
+			depth = len(order) + depth
+		}
+		if depth < 0 {
+			depth = 0
+		}
+		if depth >= len(order) {
+			depth = len(order) - 1
+		}
+		k := order[depth]
+		if cp != nil && i%2 == 1 {
+			// through the copy: the original must not notice, and the copy's
+			// order is the order at copy time; keep it simple and only set nil
+			// through the copy on the key currently chosen (the expectation
+			// is recomputed by the abstract maps anyway)
+			set(cp, k, 0)
+			continue
+		}
+		order = append(append([]int{}, order[:depth]...), order[depth+1:]...)
+		switch pl[1] {
+		case 0:
+			set(target, k, 0)
+		case 1:
+			set(target, k, val%80+1)
+			val++
+			order = append([]int{k}, order...)
+		default:
+			set(target, k, 0)
+			set(target, k, val%80+1)
+			val++
+			order = append([]int{k}, order...)
+		}
+	}
+	watch := []C12Owner{*d.o}
+	if cp != nil {
+		watch = append(watch, *cp)
+	}
+	return C12Spec{Ops: ops, Keys: c12SortedKeys(ops), Watch: watch}
+}
+
+// the deterministic part: every owner kind, boundary depths around the 16th
+// link, the middle and the oldest link, with nil / re-set / nil-then-set
+func c12DeepFixed() []C12Spec {
+	var out []C12Spec
+	plans := [][][2]int{
+		{{-1, 0}, {-1, 1}, {17, 0}, {16, 1}, {15, 0}, {0, 0}, {-1, 2}, {18, 1}, {19, 0}, {-2, 1}},
+		{{17, 1}, {17, 1}, {17, 1}, {-1, 1}, {-1, 1}, {-1, 0}, {16, 0}, {18, 0}, {10, 2}, {0, 1}},
+		{{-1, 2}, {-1, 2}, {-3, 0}, {20, 1}, {17, 0}, {17, 0}, {1, 0}, {-1, 1}},
+	}
+	rot := 0
+	for i, d := range c12DeepOwners() {
+		n := 20 + (i*5)%21 // 20..40
+		for j, pl := range plans {
+			out = append(out, c12Deep(d, n+j, rot, pl, j == 1))
+			rot++
+		}
+	}
+	// re-setting the same 24 keys round-robin never grows the stored state,
+	// and setting them all to nil empties it
+	for _, d := range []c12DeepOwner{c12DeepOwners()[4], c12DeepOwners()[6]} {
+		var plan [][2]int
+		for i := 0; i < 48; i++ {
+			plan = append(plan, [2]int{-1, 1})
+		}
+		for i := 0; i < 24; i++ {
+			plan = append(plan, [2]int{-1, 0})
+		}
+		out = append(out, c12Deep(d, 24, rot, plan, false))
+		rot++
+	}
+	return out
+}
+
+func c12DeepRandom(r *RNG) C12Spec {
+	ds := c12DeepOwners()
+	d := ds[r.Intn(len(ds))]
+	n := 18 + r.Intn(23) // 18..40
+	depths := []int{0, 1, 15, 16, 17, 18, 19, n / 2, -1, -2, -3, r.Intn(n)}
+	var plan [][2]int
+	for i, m := 0, 6+r.Intn(8); i < m; i++ {
+		plan = append(plan, [2]int{pick(r, depths), r.Intn(3)})
+	}
+	return c12Deep(d, n, r.Intn(1000), plan, r.Pct(50))
+}
+
 // ---------------------------------------------------------------- shrinking
 
 func c12Shrink(spec json.RawMessage) []json.RawMessage {
@@ -1127,6 +1305,16 @@ func c12Size(sp *C12Spec) int {
 
 // ---------------------------------------------------------------- registration
 
+func c12LenBucket(n int) string {
+	switch {
+	case n >= 18:
+		return "18+"
+	case n > 8:
+		return "9-17"
+	}
+	return fmt.Sprint(n)
+}
+
 func c12Tags(sp *C12Spec, obs []c12StepObs) []string {
 	has := map[string]bool{}
 	kinds := map[string]bool{}
@@ -1168,7 +1356,7 @@ func c12Tags(sp *C12Spec, obs []c12StepObs) []string {
 	for _, k := range sp.Keys {
 		types[c12Keys[k].tag] = true
 	}
-	tags = append(tags, fmt.Sprintf("key-types=%d", len(types)), fmt.Sprintf("max-chain=%d", min(maxLen, 8)),
+	tags = append(tags, fmt.Sprintf("key-types=%d", len(types)), fmt.Sprintf("max-chain=%s", c12LenBucket(maxLen)),
 		fmt.Sprintf("ops=%d", (len(sp.Ops)/5)*5))
 	sort.Strings(tags)
 	return tags
@@ -1182,9 +1370,9 @@ func init() {
 		CaseFn:   "C12_case",
 		ModelFn:  "C12_model",
 		Rule: "histories of {SetProperty v, SetProperty nil, GetProperty, c2 := *cell, NewCell, NewRow, Row.Add(copy) on a row not yet in the table, AddRow, AddRowItems (growth to 25 columns), t.Column(n) handle taken and used later} " +
-			"over owners table / column n incl. 0 / handle / row / cell through CellAt / detached cell copy, keys from {int 1, int64 1, \"1\", two pointers, two struct keys, int 2}; " +
+			"over owners table / column n incl. 0 / handle / row / cell through CellAt / detached cell copy, keys from {int 1, int64 1, \"1\", two pointers, two struct keys, int 2} plus, for the deep-chain stream, the values 3..10 as int / int64 / string / pointer / struct / uint8 / float64 / named int32; " +
 			"after every step every watched owner is read under every key and its chain length is read off %#v; " +
-			"every history of exactly 4 (thorough: 5) steps after a fixed prefix in the 4 two-owner scenarios with sharing or a handle (cell copy, Row.Add of a copy, copy of a copy, handle across growth) and of 3 (4) steps in the 3 scenarios with plain independent owners (keys in order of first use, concrete key triple rotating), deterministic deep-chain / re-set / Row.Add / per-column-handle histories, and random histories with growth in the middle; " +
+			"every history of exactly 4 (thorough: 5) steps after a fixed prefix in the 4 two-owner scenarios with sharing or a handle (cell copy, Row.Add of a copy, copy of a copy, handle across growth) and of 3 (4) steps in the 3 scenarios with plain independent owners (keys in order of first use, concrete key triple rotating), deterministic deep-chain / re-set / Row.Add / per-column-handle histories, a deep-chain stream (one owner of every kind - table, column 0, column n, handle held across growth, row in and out of the table, cell, detached copy - loaded with 18-40 distinct keys of eight dynamic types, then set nil / re-set / nil-then-set of the newest, 16th-20th, middle and oldest links, for cells alternately through a by-value copy; 24 keys re-set round-robin twice then all set to nil), and random histories with growth in the middle; " +
 			"non-trivial = at least one non-nil set took effect; distinct = distinct (history, trace)",
 		Exhaustive: "all histories of exactly 4 (thorough 5) steps over 2 owners x 3 keys x {set fresh value, set nil} + the scenario's structural ops (copy / Row.Add / AddRow / growth to 25 columns), in 4 scenarios; one step shorter in 3 scenarios with plain independent owners",
 		Gen: func(r *RNG, tier string) []json.RawMessage {
@@ -1209,6 +1397,16 @@ func init() {
 			}
 			for _, sp := range c12Hostile() {
 				out = append(out, mustJSON(sp))
+			}
+			for _, sp := range c12DeepFixed() {
+				out = append(out, mustJSON(sp))
+			}
+			nd := 30
+			if tier == "thorough" {
+				nd = 1500
+			}
+			for i := 0; i < nd; i++ {
+				out = append(out, mustJSON(c12DeepRandom(r)))
 			}
 			nr := 400
 			if tier == "thorough" {
